@@ -224,7 +224,7 @@ def _sub_key(sub: Any) -> str:
 
 
 def _area_dumps(record: Any) -> tuple:
-    """ (order-free view, exact view) of protoclusters, candidate clusters and regions of a record """
+    """ (order-free view, repeated members, exact view) of protoclusters, candidate clusters and regions """
     protos = record.get_protoclusters()
     cands = record.get_candidate_clusters()
     regions = record.get_regions()
@@ -239,11 +239,10 @@ def _area_dumps(record: Any) -> tuple:
                               for cds in record.get_cds_features()),
         "definition_cdses": sorted(
             _proto_key(p) + "|" + ",".join(sorted(cds.get_name() for cds in p.definition_cdses)) for p in protos),
-        # a protocluster that a candidate cluster lists more than once (membership above is judged as a set)
-        "members_listed_twice": sorted(
-            f"{_cand_key(c)}||{_proto_key(p)}" for c in cands for i, p in enumerate(c.protoclusters)
-            if any(p is q for q in c.protoclusters[:i])),
     }
+    # a protocluster that a candidate cluster lists more than once (membership above is judged as a set)
+    repeats = sorted(f"{_cand_key(c)}||{_proto_key(p)}" for c in cands for i, p in enumerate(c.protoclusters)
+                     if any(p is q for q in c.protoclusters[:i]))
     exact = {
         "protoclusters": [{"number": p.get_protocluster_number(), "key": _proto_key(p),
                            "cdses": [cds.get_name() for cds in p.cds_children]} for p in protos],
@@ -265,7 +264,7 @@ def _area_dumps(record: Any) -> tuple:
                      "cdses": [cds.get_name() for cds in r.cds_children]} for r in regions],
         "subregions": [{"number": s.get_subregion_number(), "key": _sub_key(s)} for s in record.get_subregions()],
     }
-    return sets, exact
+    return sets, repeats, exact
 
 
 def _cds_annotation_dump(record: Any) -> list:
@@ -336,8 +335,9 @@ def _form_areas_and_outputs(stages: _Stages, record: Any, module_results: dict) 
     """ what main.run_detection does after the detection modules, then the two output writers """
     stages.guard("areas", record.create_candidate_clusters)
     stages.guard("areas", record.create_regions)
-    sets, exact = stages.guard("areas", _area_dumps, record)
+    sets, repeats, exact = stages.guard("areas", _area_dumps, record)
     stages.add("areas_sets", sets)
+    stages.add("candidate_member_repeats", repeats)
     stages.add("areas", exact)
     stages.classes.extend(stages.guard("areas", _area_classes, record))
     stages.add("genbank", stages.guard("genbank", _genbank_text, record))
